@@ -16,7 +16,7 @@ import (
 // substantial probability whenever the dependent branch runs.
 func TestC09_Replicas(t *testing.T) {
 	rec := recorder("C09")
-	rec.AddRule("rapid state machine over shuttermint call histories (apphist generator: 1-5 genesis keypers, all thresholds, votes on pooled candidate configurations, DKG result votes, check-ins, block-seen, DKG messages, replays, garbage, CheckTx interleaved) executed on 4 replicas, in half of the cases with state files and a different save schedule per replica; non-trivial = history in which some tally had two values at or over the threshold when consulted (order-sensitive decision exercised) or a configuration was accepted after a vote split; distinct by canonical history string")
+	rec.AddRule("rapid state machine over shuttermint call histories (apphist generator: 1-5 genesis keypers, all thresholds, votes on pooled candidate configurations, DKG result votes, check-ins, block-seen, DKG messages, replays, garbage, CheckTx interleaved) executed on 4 replicas, in half of the cases with state files and a different save schedule per replica and replicas that are stopped and continued from their state file; non-trivial = history in which some tally had two values at or over the threshold when consulted (order-sensitive decision exercised) or a configuration was accepted after a vote split; distinct by canonical history string")
 	rec.Assume("Go's per-range map iteration randomisation samples iteration orders; orders are not enumerated")
 	steps := 40
 	persistDir := t.TempDir()
@@ -33,6 +33,15 @@ func TestC09_Replicas(t *testing.T) {
 				plans = append(plans, persistPlan{Period: per, Phase: int64(rapid.IntRange(0, int(per)-1).Draw(rt, fmt.Sprintf("savePhase%d", i)))})
 			}
 			c.EnablePersistence(persistDir, plans)
+			// ... and some of them are stopped and continued from their state file now and then
+			// (replica 0 never is): the process is not part of the block sequence either
+			c.RestartPlan = make([]persistPlan, len(c.Reps))
+			for i := 1; i < len(c.Reps); i++ {
+				if rapid.Bool().Draw(rt, fmt.Sprintf("restarts%d", i)) {
+					per := int64(rapid.IntRange(1, 5).Draw(rt, fmt.Sprintf("restartPeriod%d", i)))
+					c.RestartPlan[i] = persistPlan{Period: per, Phase: int64(rapid.IntRange(0, int(per)-1).Draw(rt, fmt.Sprintf("restartPhase%d", i)))}
+				}
+			}
 		}
 		n := rapid.IntRange(5, steps).Draw(rt, "len")
 		for i := 0; i < n; i++ {
@@ -55,6 +64,9 @@ func TestC09_Replicas(t *testing.T) {
 		}
 		if persisting {
 			labels = append(labels, "replicas-save-on-different-schedules")
+		}
+		if c.Restarts > 0 {
+			labels = append(labels, "replica-restarted")
 		}
 		rec.Case(c.DescString(), nt, labels...)
 		rec.LabelN("order-sensitive-decisions", c.M.SplitTally)
